@@ -84,7 +84,19 @@ THEOREMS = [
          clause="... with a programme that has not risen and starts at T_0: coldest shelf temperature so far <= reported "
                 "T <= T_0 (cooling-stage rows)"),
     dict(name="Snow.C07.maxprinciple1D_cool_run_coldest", strength="full",
-         clause="1D shelf, loop states: coldest shelf so far <= every node <= T_0 (not yet restated on published rows)"),
+         clause="1D shelf, loop states: coldest shelf so far <= every node <= T_0"),
+    dict(name="Snow.C07.maxprinciple1D_cool_rows", strength="full",
+         clause="1D shelf: every row SAVED during the cooling loop lies in [lo,hi] (degC)"),
+    dict(name="Snow.C07.maxprinciple1D_published", strength="full",
+         clause="1D shelf, published histories: every REPORTED temperature row with index < iSaveEnd lies in [lo,hi] "
+                "containing T_0 and the shelf temperatures up to the nucleation step"),
+    dict(name="Snow.DefaultLink.gen_default_constants", strength="witness",
+         clause="the GENERATED calculateDerived evaluated exactly (over Q) on the GENERATED default YAML tree returns "
+                "these constants"),
+    dict(name="Snow.DefaultLink.qDef_is_generated_default", strength="witness",
+         clause="the default SnowIn of the non-vacuity witnesses equals (field by field, as reals) those constants"),
+    dict(name="Snow.DefaultLink.pDef_is_generated_default", strength="witness",
+         clause="the 2D default Par equals them too (configuration set to jacket with the YAML's jacket block)"),
     dict(name="Snow.C07.hyps_qDef", strength="witness",
          clause="hden/hnum/htheta of bounds0D_run, hv/hfo/hbi of maxprinciple1D_cool_run, SolOK1 and the nucleation "
                 "hypotheses hold for the default SnowIn and its 30-point grid"),
@@ -132,7 +144,7 @@ PARALLEL = True
 LEVEL_TEXT = ("PARTIAL proof. Lean 4 theorems (exact reals). RUN LEVEL, cooling stage (induction over the loops): 0D, 1D "
               "shelf, 2D shelf/jacket (repaired and in-place update) -- every node stays in the interval spanned by T_0 and "
               "the shelf temperatures applied so far, hence between the coldest shelf so far and T_0 for a non-rising "
-              "programme -- stated on loop states (0D, 1D) and on the REPORTED cooling-stage rows of a completed run (2D) -- "
+              "programme -- stated on loop states (0D) and on the REPORTED cooling-stage rows of a completed run (1D, 2D) -- "
               "(hypotheses: CFL from the code's dt, Biot numbers <= 1, named structure StabCtx); every "
               "cooling-stage row of a completed 0D/1D/2D run reports zero ice. NUCLEATION: T_nuc < T_after < T_eq_l, "
               "0 < m_i < m_w. ICE: 0 <= w_i < w_water, ice iff T < T_eq_l, liquidus relation, for the 2D, 1D and "
